@@ -485,6 +485,43 @@ def run(src, tier, seed):
     res.ok(r, 'LASolver: checked under activation-count-balance')
 
     # ---- R6 clearSolver keeps its coverage
+    # ---- retracting a literal restores every derived member its assertion may have changed (literal-stack solvers)
+    import undo_cover as uc
+    r = res.rule('retract-restores-what-assert-changed', 'for every theory solver whose popBacktrackPoint retracts literals one by one from its own stack: every member that assertLit can '
+                 'mutate for a literal of polarity P is written on every path of popBacktrackPoint on which a literal of polarity P is retracted (a reset may be skipped when nothing is '
+                 'retracted, or for a polarity under which the assertion does not touch the member)', floor=2)
+    n_cls = 0
+    for cls in sorted(fx.subclasses('opensmt::TSolver')):
+        af = [f for f in fx.F.values() if f.get('class') == cls and f['name'].endswith('::assertLit') and f.get('body')]
+        pf = [f for f in fx.F.values() if f.get('class') == cls and f['name'].split('::')[-1] == 'popBacktrackPoint' and f.get('body')]
+        if not af or not pf:
+            continue
+        af, pf = af[0], pf[0]
+        locs = {d['n'] for d in fwalk(pf) if d.get('k') == 'decl' and 'PtAsgn' in (d.get('ct') or d.get('t') or '')}
+        if not locs:
+            continue        # this solver does not retract literal by literal (undo log / bound store): covered by the pairing and undo-kind rules
+        n_cls += 1
+        stack = {(path_of(see_through(d['init']).get('recv')) or '').split('.')[-1] for d in fwalk(pf) if d.get('k') == 'decl' and d['n'] in locs
+                 and isinstance(see_through(d.get('init')), dict) and see_through(d['init']).get('k') == 'call'}
+        stack.discard('')
+        rd_a = uc.polarity_reader({af['params'][0]['n']})
+        rd_p = uc.polarity_reader(locs)
+        for P, pname in (('pos', 'positive'), ('neg', 'negative')):
+            W = frozenset().union(*uc.write_sets(fx, cls, af, rd_a, P, must=False))
+            paths = [s_ for s_ in uc.write_sets(fx, cls, pf, rd_p, P, must=True) if s_ & stack]
+            if not paths:
+                raise AnalysisBroken('%s::popBacktrackPoint: no path retracts a literal from %s' % (cls, sorted(stack)))
+            R = frozenset.intersection(*paths)
+            missing = sorted(W - R - stack)
+            if missing:
+                res.bad(r, 'retract-leaves-trace:%s:%s' % (cls.split('::')[-1], pname), fx.loc(pf), '%s::assertLit can change %s when a %s literal is asserted, but %s::popBacktrackPoint has a path that '
+                        'retracts a %s literal without writing %s: the retracted literal leaves a trace in that state and later verdicts depend on it'
+                        % (cls, missing, pname, cls, pname, missing))
+            else:
+                res.ok(r, '%s, %s literals: %s restored on every retracting path' % (cls.split('::')[-1], pname, sorted(W - stack)))
+    if n_cls < 1:
+        raise AnalysisBroken('no theory solver with a literal-by-literal popBacktrackPoint found (ArraySolver expected)')
+
     r = res.rule('clear-coverage', 'each clearSolver override still resets every member it resets on the reference tree, and the overrides that delegate still call TSolver::clearSolver', floor=6)
     for cls, ref in CLEAR_REFERENCE.items():
         fs = methods_of(fx, cls, 'clearSolver')
